@@ -48,3 +48,8 @@ claim("C07",
       "All sequences of <= L actions (local ops on D, ops on a remote author E, E syncing from D, deliveries of E's updates to D in any order incl. duplicates, gaps and merges, undo, redo, forced gc) are executed on real documents, state-matched on all internal dumps; after every D transaction the emitted events are applied to followers F1 (v1 only) and F2 (v2 only) whose content, state vector and delete set must equal D's; per transaction #v1 == #v2 <= 1, one if D changed, none if D's internal state did not.",
       "remote applies use a non-tracked origin; followers share D's gc setting and have clean-up off",
       "DESIGN.md 4/C07")
+claim("C08",
+      "bounded-exhaustive enumeration of update selections drawn from real histories; algebraic laws judged by differential application on real documents",
+      "For every distinct pool of C01-style histories (incl. gc'd authors, out-of-order deliveries) extended with the authors' full states and mutual diffs, EVERY ordered selection of <= 3 payloads (with repetition) is checked: merge vs one-by-one application (empty doc and author end states), every argument order and both nestings of the merge, diff_updates against the state vector of the prefix document, encode_state_vector_from_update, in v1 and v2 and v1-merge vs v2-merge. Two narrow known findings (transient differences while a gap is open) are reported as KNOWN-FINDING; anything surviving completion or occurring without a gap is a violation.",
+      "effect = visible dump + state vector + has_missing_updates; authors run without formatting clean-up",
+      "DESIGN.md 4/C08")
